@@ -102,6 +102,34 @@ def alias_map(crate, cur_fns, cur_adts, cur_consts=None):
     return out
 
 
+def merged_duplicates(facts, crate, taken=()):
+    """{reference path that no longer exists: existing function that replaced it}: a function the reference has, the tree does
+    not, whose reference callers now call another, already existing function of the same name and signature (two copies merged
+    into one).  The surviving body is what runs in its place, so rules anchored at the removed copy read the survivor."""
+    from .ir import callee_path
+    ref = reference(crate)
+    if not ref:
+        return {}
+    out = {}
+    for q, f in sorted(ref["fns"].items()):
+        if f["kind"] != "fn" or q in facts.fns or q in taken:
+            continue
+        sig = (tuple(_short_ty(t) for _, t in f["params"]), _short_ty(f["ret"]))
+        cands = set()
+        callers = [facts.fns[c] for c in f.get("callers", []) if c in facts.fns]
+        for c in callers:
+            for _, t in c.calls():
+                p = callee_path(t)
+                g = facts.fns.get(p) if p else None
+                if g is None or g.kind != "fn" or _tail(p, 1) != _tail(q, 1) or p not in ref["fns"]:
+                    continue
+                if (tuple(_short_ty(g.locals[i].get("t")) for i in range(1, g.argc + 1)), _short_ty(g.locals[0]["t"])) == sig:
+                    cands.add(p)
+        if len(cands) == 1 and callers:
+            out[q] = next(iter(cands))
+    return out
+
+
 def apply_aliases_text(text, amap):
     """Rewrite paths in a fact file's text. Longest first; a path is replaced where it is followed by a non-identifier character."""
     import re
@@ -531,6 +559,7 @@ ALWAYS_INLINE = {
         "pinocchio::ported::manager_tick_array_manager::pino_increase_tick_array_size",
         "pinocchio::ported::manager_tick_array_manager::pino_decrease_tick_array_size",
         "pinocchio::utils::account_load::check_owner_program",
+        "util::sparse_swap::maybe_load_tick_array",
         "util::swap_utils::perform_swap",
         "util::v2::swap_utils::perform_swap_v2",
     ],
